@@ -39,12 +39,23 @@ def act_script(name, d, outcome):
     if outcome == 'cond':
         # an activity that waits for a nested condition of mixed connectives; the helper raises the flag at time d
         return [['WAIT', ['OR', ['AND', ['GE', 0], ['F', 'A']], ['GE', 9]]], ['RETURN', name]]
+    if outcome == 'date':
+        # waits for an absolute date (start + d; with a negative start time this can be the date 0)
+        return [['GE', d], ['RETURN', name]]
+    if outcome == 'failpriv':
+        # fails with a proper subclass of a privileged exception type: raised unwrapped
+        return s + [['RAISE', 'Mismatch', name]]
+    if outcome == 'fin':
+        # owns a scope with a child whose cleanup tries to spawn into that scope while it is being closed
+        return [['SCOPE', 'z' + name, [['DO', name + 'x', [['FINALLY', [['D', 9]], [['TRY', [['DO', name + 'y', [['D', 2], ['PROBE', 'now']],
+                                                                                                   {'scope': 'z' + name}]]]]]], {'volatile': True}],
+                                       ['D', d]]], ['RETURN', name]]
     if outcome == 'nest':
         return s + [['COLLECT', [name + 'x', name + 'y'], [[['D', 3], ['RETURN', 1]], [['D', 3], ['PROBE', 'now'], ['RETURN', 2]]]], ['RETURN', name]]
     raise ValueError(outcome)
 
 
-def program(kind, acts, count=None, consumer='eager', until_now=False):
+def program(kind, acts, count=None, consumer='eager', until_now=False, start=0):
     names = ['k%d' % (i + 1) for i in range(len(acts))]
     scripts = [act_script(n, d, o) for n, (d, o) in zip(names, acts)]
     if kind == 'collect':
@@ -62,7 +73,7 @@ def program(kind, acts, count=None, consumer='eager', until_now=False):
     if conds:
         kids.insert(0, ['DO', 'h', [['D', conds[0]], ['SET', 'A', True]]])
     tail = [['LOCK', 'l', []]] if any(o == 'lock' for _, o in acts) else []       # the lock must be free afterwards
-    return {'_nops': 60, 'objs': {'l': 'Lock', 'A': 'Flag'},
+    return {'_nops': 60, 'objs': {'l': 'Lock', 'A': 'Flag'}, 'start': start,
             '_meta': {'kind': kind, 'acts': [list(a) for a in acts], 'count': count, 'consumer': consumer, 'until_now': until_now},
             'roots': [['root', [['SCOPE', 'm', kids]] + tail + [['PROBE', 'now']]]]}
 
@@ -100,6 +111,20 @@ def cases(tier):
                     if any(o == 'fail' for _, o in acts) and consumer == 'slow':
                         continue        # (the shape of known finding C16/first-failure-during-consumer-body)
                     out.append(program('first', acts, count, consumer))
+    # absolute dates from a negative start time; privileged failures of a subclass type; activities with a scope whose child
+    # spawns from its cleanup
+    more = [(2, 'date'), (1, 'date'), (1, 'failpriv'), (1, 'fin'), (2, 'fin'), (1, 'ok'), (2, 'ok')]
+    for n in (1, 2, 3):
+        for acts in itertools.product(more, repeat=n):
+            if not any(o in ('date', 'failpriv', 'fin') for _, o in acts) or sum(1 for a in acts if a[1] == 'failpriv') > 1:
+                continue
+            if n == 3 and len({o for _, o in acts} & {'date', 'failpriv', 'fin'}) > 1:
+                continue
+            st = -2 if any(o == 'date' for _, o in acts) else 0
+            out.append(program('collect', acts, start=st))
+            for count in list(range(0, n + 1)) + [None]:
+                for consumer in ('eager', 'break1'):
+                    out.append(program('first', acts, count, consumer, start=st))
     for acts in itertools.product([(1, 'ok'), (2, 'ok'), (2, 'tick')], repeat=2):
         out.append(program('collect', acts, until_now=True))
         out.append(program('first', acts, 2, 'eager', until_now=True))
@@ -128,6 +153,7 @@ def judge(ctx, program, hit_caller=False):
             msgs.append('until(time == now) did not interrupt the caller of %s at %r: %r' % (meta['kind'], t0, fin and fin[1:3]))
         cancelled_caller = True
     descendants = set(names) | {n + 'x' for n in names} | {n + 'y' for n in names}
+    t0_rel = t0
     L = fin[0] if fin else None
     # nothing of the activities runs after the operation ended
     if L is not None:
@@ -144,7 +170,11 @@ def judge(ctx, program, hit_caller=False):
         if begins != names[:len(begins)] or any(r[3] != t0 for r in log if r[0] == 'begin' and r[1] in names):
             msgs.append('collect started its activities as %r (times %r), expected %r at %r' % (
                 begins, [r[3] for r in log if r[0] == 'begin' and r[1] in names], names, t0))
-        if failed:
+        priv = next((x for i_, _, t, x in failed if isinstance(x, AssertionError)), None)
+        if failed and priv is not None:
+            if fin is None or fin[1] != 'exc' or fin[3] is not priv or fin[2] != failed[0][2]:
+                msgs.append('an activity failed with the privileged %r at %r but collect ended with %r' % (priv, failed[0][2], fin and fin[1:]))
+        elif failed:
             t_fail = failed[0][2]
             F_ = [x for i_, _, t, x in failed if L is None or i_ < L]
             if fin is None or fin[1] != 'exc' or not isinstance(fin[3], Concurrent):
@@ -162,7 +192,7 @@ def judge(ctx, program, hit_caller=False):
                     held += d           # the lock is handed over in the order in which the activities asked for it
                     dur.append(held)
                 else:
-                    dur.append(max(d, 1) if o == 'tick' else d + (3 if o == 'nest' else 0))
+                    dur.append(max(d, 1) if o == 'tick' else d + (3 if o == 'nest' else 0))      # ('date', 'fin': d)
             t_end = t0 + (max(dur) if dur else 0)
             if fin is None or fin[1] != 'end' or fin[3] != names or fin[2] != t_end:
                 msgs.append('collect should return %r at %r, got %r' % (names, t_end, fin and fin[1:]))
@@ -195,7 +225,11 @@ def judge(ctx, program, hit_caller=False):
             break
         ready = t + body
     nontrivial = nontrivial or k < n
-    if failed and (fin is None or fin[1] == 'exc'):
+    priv = next((x for i_, _, t, x in failed if isinstance(x, AssertionError)), None)
+    if failed and priv is not None and (fin is None or fin[1] == 'exc'):
+        if fin is None or fin[3] is not priv:
+            msgs.append('a contestant failed with the privileged %r but first ended with %r' % (priv, fin and (fin[1], describe(fin[3]))))
+    elif failed and (fin is None or fin[1] == 'exc'):
         # a failure before the requested results were out: Concurrent with the failure, at that time
         t_fail = failed[0][2]
         if fin is None or not isinstance(fin[3], Concurrent) or not any(c is failed[0][3] for c in fin[3].children):
